@@ -149,6 +149,17 @@ def invalidation(repo, res):
                 miss["derived"] = p
         if n_write == 0:
             raise AnalysisError(f"{fn.where()}: no table write found in {m}")
+        # an edit that is accepted takes effect: every path that ends normally has written (or deleted) the entry.  An
+        # early return under some condition on the old entry ("scale unchanged, nothing to do") makes the outcome of the
+        # same call depend on what the symbol was before - and skips what else the call carries (a new dimension)
+        silent = []
+        for p in enum_paths(fn.body):
+            if p[-1][0] == "raise":
+                continue
+            stm = [ev[1] for ev in p if ev[0] == "stmt"]
+            if not any((isinstance(s_, ast.Assign) and any(norm(t) == f"self.lut[{sym}]" for t in s_.targets)) or (isinstance(s_, ast.Delete) and any(norm(t) == f"self.lut[{sym}]" for t in s_.targets)) for s_ in stm):
+                silent.append(sorted(f"{t}={tr}" for t, tr, _ in path_facts(p)))
+        res.check(not silent, f"{m}:every-normal-exit-writes", fn.where(), f"{m} returns normally on a path that never writes the entry: the edit is silently dropped under a condition on the previous state of the table (history-dependent), e.g. modify(sym, 1.0*s) after add(sym, 1.0, length) keeps the length", "every non-raising path stores / deletes self.lut[symbol]", silent[:2], rid=r2)
         # ordering against re-population: an invalidation that is followed, before the table write, by a call that
         # evaluates units (a quantity argument converted with in_base(...) looks units up in this very registry, which
         # re-derives prefixed rows from the OLD entry, re-fills the unit cache and re-memoises the contents id) is
@@ -287,6 +298,7 @@ def immutability(repo, res):
 
 
 MUTANTS = [
+    Mutant("modify-skips-equal-scale", REG, "UnitRegistry.modify", "        self._forget_prefixed(symbol)\n        self.lut[symbol] =", "        if float(base_value) == self.lut[symbol][0]:\n            return\n        self._forget_prefixed(symbol)\n        self.lut[symbol] =", ("C12-R2",)),
     Mutant("modify-exact-key-only", REG, "UnitRegistry.modify", "        self._unit_object_cache.clear()", "        if symbol in self._unit_object_cache:\n            del self._unit_object_cache[symbol]", ("C12-R2",)),
     Mutant("add-no-clear", REG, "UnitRegistry.add", "        self._unit_object_cache.clear()\n", "", ("C12-R2",)),
     Mutant("remove-keeps-derived", REG, "UnitRegistry.remove", "        self._forget_prefixed(symbol)\n", "", ("C12-R2",)),
